@@ -7,4 +7,5 @@ CONSTANTS
   PairGapMax = 8
   Nested = TRUE
   OptionSet <- AllOptions
+  OwnLineOptions <- QuickOptions
 INVARIANTS FSpineOK FEmit
